@@ -1,2 +1,5 @@
+import GoDcp.Model.Basic
 import GoDcp.Model.Chunk
+import GoDcp.Model.Observer
+import GoDcp.Model.Session
 import GoDcp.Props.C09
